@@ -2,16 +2,22 @@
    Definitions only; these are the functions run by the correspondence driver and the ones the
    theorems of Props/C11.v speak about. *)
 From Coq Require Import NArith List.
-From BU Require Import Base.Exn Base.Bytes Gen.Consts.
-From BU Require Model.Base58 Model.Base58Xmr.
+From BU Require Import Base.Exn Base.Bytes Gen.Consts Gen.CodecConsts.
+From BU Require Model.Base58 Model.Base58Xmr Model.ConvertBits.
 Import ListNotations.
 Open Scope N_scope.
 
 (* ---- Monero block Base58 ---- *)
 Definition xmr_encode := Base58Xmr.encode xmr_alph b58_radix xmr_block_dec_max xmr_block_enc_max xmr_block_enc_lens.
 Definition xmr_decode := Base58Xmr.decode xmr_alph b58_radix xmr_block_dec_max xmr_block_enc_max xmr_block_enc_lens.
-Definition xmr_decode_current := Base58Xmr.decode_current xmr_alph b58_radix xmr_block_dec_max xmr_block_enc_max xmr_block_enc_lens.
 Definition xmr_b58dec := Base58Xmr.b58dec xmr_alph b58_radix.
 Definition xmr_b58enc := Base58Xmr.b58enc xmr_alph b58_radix.
 Definition xmr_block_value := Base58Xmr.block_value xmr_alph b58_radix.
 Definition xmr_pad := Base58Xmr.pad xmr_alph.
+
+(* ---- Bech32BaseUtils.ConvertToBase32 / ConvertFromBase32 (a None result becomes ValueError);
+        the bit widths are the literal arguments of the two ConvertBits calls in the source ---- *)
+Definition to_base32 (data : list N) : res (list N) :=
+  ConvertBits.none_is_value_error (ConvertBits.convert_bits cb_to32_from cb_to32_to data true).
+Definition from_base32 (data : list N) : res (list N) :=
+  ConvertBits.none_is_value_error (ConvertBits.convert_bits cb_from32_from cb_from32_to data false).
